@@ -270,7 +270,8 @@ def make_evidence(prop, tier, seed, mod, obs, results, violations, known_hits, i
 
 
 def write_evidence(prop, ev):
-    d = os.path.join(ROOT, 'evidence')
+    # trial runs against a seeded scratch worktree (tools/detect_seeds.py) keep their evidence out of /verif/evidence
+    d = os.environ.get('SYMX_EVIDENCE_DIR') or os.path.join(ROOT, 'evidence')
     os.makedirs(d, exist_ok=True)
     try:
         import jsonschema
